@@ -282,6 +282,15 @@ pub fn one(acc: &mut Acc, c: &IncCase) {
     acc.sample(|| json!({"case": format!("{:?}", c), "top": clip(&top_src, 200)}));
 }
 
+/// a string literal / escaped identifier directly followed (trivia aside) by the `include directive itself
+/// (finding F1: the directive is then part of the literal's trailing trivia)
+fn literal_then_include(s: &str) -> bool {
+    use crate::models::lexref::{self, K};
+    let Ok(lx) = lexref::lex_opts(s, true) else { return false };
+    let sig: Vec<&lexref::Lx> = lx.iter().filter(|l| !lexref::is_trivia(l.k)).collect();
+    sig.windows(2).any(|w| matches!(w[0].k, K::Str | K::EscId) && w[1].k == K::Bt && &s[w[1].b..w[1].e] == "`include")
+}
+
 /// same-line rule and ignore_include on literal texts (file a.svh = one marker token)
 fn line_rule(acc: &mut Acc, k: usize, ignore: bool) {
     let tag = std::thread::current().name().unwrap_or("m").to_string();
@@ -301,6 +310,21 @@ fn line_rule(acc: &mut Acc, k: usize, ignore: bool) {
         (format!("`ifdef NOPE x `endif {}\n", inc), true),
         (format!("\"s\" {}\n", inc), true),
         (format!("{} `celldefine\n", inc), true),
+        (format!("`define A 1\n{} `undef A\n", inc), true),
+        (format!("{} `define B 1\n", inc), true),
+        (format!("{} `ifdef A\n`endif\n", inc), true),
+        (format!("{} `resetall\n", inc), true),
+        (format!("`define Q q\n{} `Q\n", inc), true),
+        (format!("{} `timescale 1ns/1ps\n", inc), true),
+        (format!("{} `__LINE__\n", inc), true),
+        (format!("`define A 1\n`undef A {}\n", inc), true),
+        (format!("`resetall {}\n", inc), true),
+        (format!("`define Q q\n`Q {}\n", inc), true),
+        (format!("`ifdef NOPE\n`endif {}\n", inc), true),
+        (format!("{}\n`undef A\n`resetall\n", inc), false),
+        (format!("x\ny {}\n", inc), true),
+        (format!("`define A a \\\n b\n{}\n", inc), false),
+        (format!("`ifdef NOPE\nx\n`else\ny\n`endif\n{}\n", inc), false),
     ];
     let (src, want_line_err) = forms[k % forms.len()].clone();
     std::fs::write(&an, "inc_marker\n").ok();
@@ -320,7 +344,7 @@ fn line_rule(acc: &mut Acc, k: usize, ignore: bool) {
                 acc.violation(None, case, format!("ignore_include: the file's tokens appear in the output {:?}", pt.text()));
             } else if ignore && pt.text().contains(&an) {
                 acc.class("violation");
-                let sig = if crate::props::c06::literal_then_directive(&src) { Some(SIG_LITERAL_LINE.to_string()) } else { None };
+                let sig = if literal_then_include(&src) { Some(SIG_LITERAL_LINE.to_string()) } else { None };
                 acc.violation(sig, case, format!("ignore_include: the literal `include still contributes tokens: {:?}", pt.text()));
             } else if !ignore && !has {
                 acc.class("violation");
@@ -331,7 +355,7 @@ fn line_rule(acc: &mut Acc, k: usize, ignore: bool) {
         }
         Ok(other) => {
             acc.class("violation");
-            let sig = if crate::props::c06::literal_then_directive(&src) { Some(SIG_LITERAL_LINE.to_string()) } else { None };
+            let sig = if literal_then_include(&src) { Some(SIG_LITERAL_LINE.to_string()) } else { None };
             acc.violation(sig, case, format!("same-line rule: expected {}, got {}\nsource: {:?}", if want_line_err && !ignore { "IncludeLine" } else { "Ok" }, match other { Ok(_) => "Ok".to_string(), Err(e) => err_sig(&e) }, src));
         }
     }
@@ -388,7 +412,7 @@ pub fn cases(tier: Tier) -> Space<IncCase> {
 
 pub fn build(tier: Tier) -> Check<'static> {
     let mut c = Check::new("C10", tier, "6/C10");
-    c.rule = "real files: a.svh present in every subset of {cwd, inc1, inc2} (copies carry different marker tokens) x 5 include-path lists x 7 contents (text, define, undef of an outer macro, include guard, nested include of b.svh, usage of an outer macro, usage of an undefined macro) x 3 directive styles (quote, angle, via macro) x once/twice x ignore_include x relative/absolute name x placements of b.svh x layouts x 3 endings of the included files (line end, none, a // comment without line end); through preprocess (strip_comments off and on) and preprocess_str; plus 12 same-line forms x ignore_include and the in-expansion `include; non-trivial = model and implementation agree on a result, distinct by construction".into();
+    c.rule = "real files: a.svh present in every subset of {cwd, inc1, inc2} (copies carry different marker tokens) x 5 include-path lists x 7 contents (text, define, undef of an outer macro, include guard, nested include of b.svh, usage of an outer macro, usage of an undefined macro) x 3 directive styles (quote, angle, via macro) x once/twice x ignore_include x relative/absolute name x placements of b.svh x layouts x 3 endings of the included files (line end, none, a // comment without line end); through preprocess (strip_comments off and on) and preprocess_str; plus 27 same-line forms x ignore_include and the in-expansion `include; non-trivial = model and implementation agree on a result, distinct by construction".into();
     c.assumptions = vec![
         "the process changes its working directory to /verif/.work/C10/cwd; file names are unique per worker thread".into(),
         "reference preprocessor models/ppref.rs with the search rule exactly as the property states it".into(),
@@ -398,7 +422,7 @@ pub fn build(tier: Tier) -> Check<'static> {
         let sp = cases(tier);
         c.parts.push(Part::new("include-graphs", sp.len(), "include placement / search order / contents / styles", move |i, acc| one(acc, &sp.get(i))));
     }
-    c.parts.push(Part::new("same-line-rule", 24, "12 same-line forms x ignore_include", move |i, acc| line_rule(acc, (i / 2) as usize, i % 2 == 1)));
+    c.parts.push(Part::new("same-line-rule", 54, "27 same-line forms (text, comments, directives of every kind before and behind the `include) x ignore_include", move |i, acc| line_rule(acc, (i / 2) as usize, i % 2 == 1)));
     c.parts.push(Part::new("ignore-include-in-expansion", 2, "`include produced by a macro body under ignore_include, file absent / present", move |i, acc| ignore_in_expansion(acc, i == 1)));
     c
 }
